@@ -210,6 +210,65 @@ pub fn run(ctx: &Ctx) -> i32 {
                 }
             }
         }
+        // transitions: a random walk in which every step changes exactly one register (or nothing), then costs a
+        // cycle in this shard's area - before and after - interleaved with lookups anywhere else in the address
+        // space (whose results are checked only where the statement defines them). Catches costs that follow a
+        // setting only when something else changes too, or that depend on what was costed before.
+        if stats.failures.is_empty() {
+            let steps: u32 = tier.pick(300_000, 5_000_000);
+            let mut cfg = BusCfg::ZERO;
+            let any32 = any::<u32>();
+            for _ in 0..steps {
+                let x = sample(&mut runner, &any32);
+                let v = (x >> 8) as u8;
+                match x & 7 {
+                    0 => cfg.abwcr = if x & 0x8000_0000 != 0 { cfg.abwcr ^ (1 << (v & 7)) } else { v },
+                    1 => cfg.astcr = if x & 0x8000_0000 != 0 { cfg.astcr ^ (1 << (v & 7)) } else { v },
+                    2 => cfg.wcrh = if x & 0x8000_0000 != 0 { cfg.wcrh ^ (1 << (v & 7)) } else { v },
+                    3 => cfg.wcrl = if x & 0x8000_0000 != 0 { cfg.wcrl ^ (1 << (v & 7)) } else { v },
+                    4 => cfg.drcra = if x & 0x8000_0000 != 0 { cfg.drcra ^ 0x20 } else { (v & 0x1f) | (cfg.drcra & 0xe0) },
+                    5 => cfg.drcra = (cfg.drcra & 0x1f) | (((x >> 16) & 1) as u8) << 5,
+                    _ => {} // no change: the same setting costed again
+                }
+                let ki = ((x >> 20) % 6) as usize;
+                let own = (x >> 24) & 1 == 1 && !matches!(KINDS[ki], Kind::L | Kind::M);
+                // a lookup somewhere else first (any area, on-chip RAM, I/O registers)
+                if (x >> 25) & 3 == 0 {
+                    let y = sample(&mut runner, &any32);
+                    let other = match y & 3 {
+                        0 => y >> 8,
+                        1 => 0xffbf20 + (y >> 8) % 0x4000,
+                        2 => 0xffff20 + (y >> 8) % 0xca,
+                        _ => 0xfee000 + (y >> 8) % 0x100,
+                    } & 0xff_ffff;
+                    let c = Case { cfg, kind: ((y >> 4) % 6) as usize, n: 1, addr: other, own: false };
+                    match eval(&mut emu, &c) {
+                        Ok(Some(_)) => stats.evaluations += 1,
+                        Ok(None) => {
+                            // outside the statement: still performed, result ignored
+                            let _ = guarded(|| emu.cpu.calc_state_with_addr(st(KINDS[c.kind]), 1, other));
+                        }
+                        Err(m) => {
+                            stats.fail(Failure { signature: format!("bus-cycle cost | transition walk, area {}", (other >> 21) & 7), detail: m, case: c.to_json() });
+                            break;
+                        }
+                    }
+                }
+                let addr = addrs[((x >> 27) as usize) % addrs.len()];
+                let c = Case { cfg, kind: ki, n: 1 + ((x >> 30) as u8), addr, own };
+                match eval(&mut emu, &c) {
+                    Ok(Some(_)) => {
+                        stats.evaluations += 1;
+                        stats.class("transition walk: one register changed (or none) since the previous lookup");
+                    }
+                    Ok(None) => stats.skipped += 1,
+                    Err(m) => {
+                        stats.fail(Failure { signature: format!("bus-cycle cost | transition walk, area {}", area), detail: format!("{} (history-dependent: replaying the single lookup may pass)", m), case: c.to_json() });
+                        break;
+                    }
+                }
+            }
+        }
         emu.set_bus_cfg(&BusCfg::ZERO);
         stats
     });
